@@ -110,6 +110,35 @@ def breaksLiteral (q : String) : Bool :=
     let body := literalBody c
     body.contains '"' || body.contains '\n' || body.contains (Char.ofNat 0) || escBreaks body
 
+/-- the paths a Summarize-shaped query compares with a string literal: the run of path characters
+    before every ` == "` -/
+def queryPaths (q : String) : List String :=
+  let pieces := q.splitOn " == \""
+  (pieces.dropLast).map fun pre =>
+    String.ofList (pre.toList.reverse.takeWhile (fun c => c.isAlphanum || c == '_' || c == '.' || c == '[' || c == ']')).reverse
+
+/-- the value an entry holds at `a.b[2].c` -/
+def valueAt (j : Json) (path : String) : Option Json :=
+  (path.splitOn ".").foldl (fun cur seg => cur.bind fun j =>
+    let name := String.ofList (seg.toList.takeWhile (· != '['))
+    let idxs := ((seg.splitOn "[").drop 1).map fun t => (String.ofList (t.toList.takeWhile (· != ']'))).toNat?
+    let base := if name.isEmpty then some j else match j with
+      | .obj kvs => Json.lookup kvs name
+      | _ => none
+    idxs.foldl (fun cur i => cur.bind fun j => match j, i with
+      | .arr xs, some i => xs[i]?
+      | _, _ => none) base) (some j)
+
+/-- the recorded finding again, judged on the VALUES the query was built from (robust against values
+    that themselves hold `" and `): some compared path of the entry holds a string that cannot stand
+    between plain double quotes -/
+def valueBreaks (entry : Option Json) (q : String) : Bool :=
+  match entry with
+  | none => false
+  | some e => (queryPaths q).any fun p => match valueAt e p with
+    | some (.str v) => v.toList.contains '"' || v.toList.contains '\n' || v.toList.contains (Char.ofNat 0) || escBreaks v.toList
+    | _ => false
+
 def judgeQueries (_proto payload impl : String) : Verdict :=
   match itemsOf impl with
   | none =>
@@ -136,7 +165,7 @@ def judgeQueries (_proto payload impl : String) : Verdict :=
             let agree := match modelT with
               | some b => truth == toString b
               | none => true
-            (implOk, agree, breaksLiteral qt)
+            (implOk, agree, breaksLiteral qt || valueBreaks entry qt)
           | _ => (false, true, false)
         let mres := ms.map fun m => match m with
           | .list [.atom name, .atom truth] =>
